@@ -40,6 +40,19 @@ def cmdMatch (toks : Toks) : Option String :=
         | .rest => "REST" | .rejected => "REJECTED" | .cancelled => "CANCELLED" | .raises => "RAISES"
         | .fill q p c cr => joinSp ["FILL", toString q, sF p, toString c, sB cr]
       some (joinSp [outS, "|", shOrd o', toString (turnoverAfter (pI tv) out)])
+  | "SIGMATCH" :: pl :: slipK :: rate :: tick :: rest =>
+      let slip : Slip := if slipK == "ratio" then .priceRatio (pF rate) else if slipK == "tick" then .tickSize (pF rate) (pF tick) else .limitPrice
+      let (_, t) := rdCfg rest
+      let (o, t) := rdOrd t
+      let (last, t) := tk t; let (lu, t) := tk t; let (ld, t) := tk t; let (fee, t) := tk t; let (ct, _) := tk t
+      let b : MBar := { deal := pOF last, limitUp := pOF lu, limitDown := pOF ld, volume := none, listedToday := false }
+      let feeFn : Int → Float → Float := fun _ _ => pF fee
+      let out := signalMatch (pB pl) slip o b (fun _ => pI ct)
+      let o' := orderAfter o feeFn out
+      let outS := match out with
+        | .rest => "REST" | .rejected => "REJECTED" | .cancelled => "CANCELLED" | .raises => "RAISES"
+        | .fill q p c cr => joinSp ["FILL", toString q, sF p, toString c, sB cr]
+      some (joinSp [outS, "|", shOrd o', "0"])
   | "OFILL" :: rest =>
       let (o, t) := rdOrd rest; let (p, t) := tk t; let (q, t) := tk t; let (fee, _) := tk t
       some (shOrd (o.fill (pF p) (pI q) (pF fee)))
